@@ -274,7 +274,7 @@ def replay_gram_epoch(args, model):
     return dict(confirmed=bool(bad), detail=f'w={w.tolist()} grad={grad.tolist()} G w - c={(G @ w - c).tolist()}', inputs=dict(G=G.tolist(), w=w0.tolist(), c=c.tolist()))
 
 
-def line_search_task(T, sparse, fit_intercept):
+def line_search_task(T, sparse, fit_intercept, weighted=False):
     """prox_newton._backtrack_line_search(_s) with a budget of 2 halvings (module constant patched for the run: bounded)"""
     import z3
     from pv import sym, symrun
@@ -286,6 +286,9 @@ def line_search_task(T, sparse, fit_intercept):
     kern = pnm._backtrack_line_search_s if sparse else pnm._backtrack_line_search
     Quadratic = symrun.get('skglm.datafits.single_task', 'Quadratic')
     L1 = symrun.get('skglm.penalties.separable', 'L1')
+    WL1 = symrun.get('skglm.penalties.separable', 'WeightedL1')
+    from .catalog import objarr
+    wts = [z3.Real('wt0'), z3.Real('wt1')]
     n, p = 1, 2            # one sample keeps every query small; the data flow does not depend on n
     e = Env(n, p)
     R = sym.SymReal
@@ -307,10 +310,17 @@ def line_search_task(T, sparse, fit_intercept):
             w = w0.copy()
             Xw0 = np.array([X[i, 0] * w0[0] + X[i, 1] * w0[1] + (w0[2] if fi else 0.) for i in range(n)], dtype=object)
             Xw = Xw0.copy()
-            delta = np.array([R(dl[0]), R(dl[1])] + ([R(dl[2])] if fi else []), dtype=object)
-            Xd = np.array([X[i, 0] * delta[0] + X[i, 1] * delta[1] + (delta[2] if fi else 0.) for i in range(n)], dtype=object)
-            df, pen = Quadratic(), L1(R(a))
-            ws = np.arange(p)
+            if weighted:
+                # a per-feature weighted penalty and a working set that is a strict subset of the features
+                ws = np.array([1])
+                delta = np.array([R(dl[1])] + ([R(dl[2])] if fi else []), dtype=object)
+                Xd = np.array([X[i, 1] * delta[0] + (delta[1] if fi else 0.) for i in range(n)], dtype=object)
+                df, pen = Quadratic(), WL1(R(a), objarr([R(wts[0]), R(wts[1])]), False)
+            else:
+                delta = np.array([R(dl[0]), R(dl[1])] + ([R(dl[2])] if fi else []), dtype=object)
+                Xd = np.array([X[i, 0] * delta[0] + X[i, 1] * delta[1] + (delta[2] if fi else 0.) for i in range(n)], dtype=object)
+                df, pen = Quadratic(), L1(R(a))
+                ws = np.arange(p)
             if sparse:
                 data, indptr, indices = e.csc(pat)
                 kern(data, indptr, indices, y, w, Xw, fit_intercept, df, pen, delta, Xd, ws)
@@ -341,13 +351,15 @@ def line_search_task(T, sparse, fit_intercept):
         if accepted:
             cs.append(('accepted-step-decreases-datafit+penalty(w[:n_features])', [convex], L(o1) < L(o0)))
         return cs
-    check_contract(T, 'line-search', run, zpre([a > 0]), post, strength='B', safety=False)
+    check_contract(T, 'line-search', run, zpre([a > 0, wts[0] >= 0, wts[1] >= 0]), post, strength='B', safety=False)
 
 
 for _sp in (False, True):
     for _fi in (False, True):
         add_task(['C01', 'C03', 'C10', 'C20'], f'prox_newton:_backtrack_line_search{"_s" if _sp else ""}[fit_intercept={_fi}]', line_search_task,
                  strength='B', sparse=_sp, fit_intercept=_fi)
+        add_task(['C03', 'C13', 'C20'], f'prox_newton:_backtrack_line_search{"_s" if _sp else ""}[fit_intercept={_fi},WeightedL1,ws=[1]]',
+                 line_search_task, strength='B', sparse=_sp, fit_intercept=_fi, weighted=True)
 
 
 def group_line_search_task(T, fit_intercept):
@@ -487,3 +499,69 @@ def fixpoint_dist_task(T, kind):
 
 for _k in ('cd', 'bcd'):
     add_task(['C01', 'C08', 'C20'], f'common:dist_fix_point_{_k}[ws=[last]]', fixpoint_dist_task, strength='B', kind=_k)
+
+
+def descent_direction_task(T, sparse, fit_intercept):
+    """prox_newton._descent_direction(_s) (one inner CD pass: module constant MAX_CD_ITER patched to 1, bounded):
+    X_delta_w_ws == X[:, ws] @ delta_w_ws[:len(ws)] (+ delta intercept), no division by zero on a column whose curvature is 0
+    (structurally empty OR stored zeros), lipschitz_ws[idx] == sum_i raw_hess_i X_ij^2"""
+    import z3
+    from pv import sym, symrun
+    from pv.sproof import check_contract, zpre
+    from .c06 import Env
+    symrun.install()
+    import skglm.solvers.prox_newton as pnm
+    kern = pnm._descent_direction_s if sparse else pnm._descent_direction
+    Quadratic = symrun.get('skglm.datafits.single_task', 'Quadratic')
+    n, p = 2, 2
+    e = Env(n, p)
+    R = sym.SymReal
+    L = sym.lift
+    b0 = z3.Real('b')
+    gws = [z3.Real('gw0'), z3.Real('gw1')]
+    fi = 1 if fit_intercept else 0
+    pats = [[[1, 1], [1, 1]], [[1, 1], [0, 1]], [[0, 1], [0, 1]]] if sparse else [None]
+
+    class Pen(StubPenalty):
+        def subdiff_distance(self, w, grad, ws):
+            return np.array([R(z3.Real(f'score{k}')) for k in range(len(ws))], dtype=object)
+    for pat in pats:
+        tag = 'dense' if pat is None else 'csc=' + ''.join(str(b) for r in pat for b in r)
+        Xz = [[e.Xz(pat, i, k) for k in range(p)] for i in range(n)]
+
+        def run(pat=pat):
+            old = pnm.MAX_CD_ITER
+            pnm.MAX_CD_ITER = 1
+            try:
+                X = e.symX(pat)
+                y = e.sym(e.y)
+                w = np.array([R(e.w[0]), R(e.w[1])] + ([R(b0)] if fi else []), dtype=object)
+                Xw = np.array([X[i, 0] * w[0] + X[i, 1] * w[1] + (w[2] if fi else 0.) for i in range(n)], dtype=object)
+                grad_ws = np.array([R(t) for t in gws], dtype=object)
+                ws = np.arange(p)
+                pen = Pen()
+                if sparse:
+                    data, indptr, indices = e.csc(pat)
+                    out = kern(data, indptr, indices, y, w, Xw, fit_intercept, grad_ws, Quadratic(), pen, ws, R(z3.Real('tol')), 'subdiff')
+                else:
+                    out = kern(X, y, w, Xw, fit_intercept, grad_ws, Quadratic(), pen, ws, R(z3.Real('tol')), 'subdiff')
+                return out
+            finally:
+                pnm.MAX_CD_ITER = old
+
+        def post(out, pth):
+            delta, Xd, lips = out
+            cs = []
+            for i in range(n):
+                cs.append((f'X_delta[{i}]==X.delta(+intercept)', [],
+                           L(Xd[i]) == Xz[i][0] * L(delta[0]) + Xz[i][1] * L(delta[1]) + (L(delta[2]) if fi else 0)))
+            for j in range(p):
+                cs.append((f'lipschitz_ws[{j}]==sum_i hess_i X_ij^2', [], L(lips[j]) == z3.Sum([Xz[i][j] * Xz[i][j] for i in range(n)]) / n))
+            return cs
+        check_contract(T, f'direction[{tag}]', run, [], post, strength='B')
+
+
+for _sp in (False, True):
+    for _fi in (False, True):
+        add_task(['C01', 'C10', 'C19', 'C20'], f'prox_newton:_descent_direction{"_s" if _sp else ""}[fit_intercept={_fi}]', descent_direction_task,
+                 strength='B', sparse=_sp, fit_intercept=_fi)
